@@ -16,9 +16,14 @@
 -/
 import YtkProofs.Resolver
 import YtkProofs.ResolverSem
+import YtkProofs.ResolverTerm
+import YtkProofs.ResolverDiverge
 
 namespace Ytk.C11
 open Ytk.Resolver
+
+def tA : Toks := [.ch 'a']
+def phA : Toks := [.pre, .ch 'a', .suf]
 
 variable (norm : Toks → Toks) (tbl : Table)
 
@@ -173,10 +178,99 @@ theorem cycle_onStack_or_true_cycle (n : Nat) (s : Toks) (seen : List Toks) (o :
     o ∈ seen ∨ Relation.TransGen (Dep norm tbl) o o :=
   (reaches_dep (reaches_of_cycle n s seen o h)).choose_spec.2.2
 
+/-! ## termination (YtkProofs/ResolverTerm.lean) and its failure (YtkProofs/ResolverDiverge.lean)
+
+  The general statement of DESIGN §6
+
+      resolve_terminates : ∀ finite tbl s, ∃ n, ∀ m ≥ n, resolve id m tbl s [] ≠ .outOfFuel      -- REFUTED
+
+  is FALSE (`resolve_diverges_counterexample`, `resolve_terminates_refuted`): values that are not
+  delimiter-balanced (an unterminated `${`, a stray `}`) glue into placeholder texts that occur
+  nowhere in the table or the input, the re-scanned default produces a new text in every round
+  and the stack test never fires.  The Go code dies with "fatal error: stack overflow" on the
+  same table (not the Circular-placeholder panic; not recoverable).
+
+  What IS proved: termination under the finite-reach hypothesis (every placeholder text met lies
+  in one finite list), and — the instance that matters — for every table whose values are all
+  delimiter-balanced, for every input (balanced or not) and every stack. -/
+
+/-- Termination under the precise extra hypothesis: an invariant `Inv` of the strings the
+    resolver is called on (closed under placeholder texts, rests, looked-up values / defaults:
+    `FiniteReach`) such that the text of every placeholder found in such a string lies in the
+    finite list `W`.  Measure: (entries of `W` not on the stack, token count), lexicographic. -/
+theorem resolve_terminates_of_finite_reach_partial {Inv : Toks → Prop} {W : List Toks}
+    (H : FiniteReach norm tbl Inv W) (s : Toks) (seen : List Toks) (hs : Inv s) :
+    ∃ n, ∀ m, n ≤ m → resolve norm m tbl s seen ≠ .outOfFuel := by
+  obtain ⟨r, hr⟩ := resolves_of_finiteReach H s seen hs
+  obtain ⟨n, hn⟩ := hr.fuel
+  exact ⟨n, fun m hm => by rw [hn m hm]; exact hr.ne⟩
+
+/-- `resolve_terminates` for GRAMMAR TABLES: if every table value is delimiter-balanced (every
+    prefix is closed inside the value; `norm = id`), resolution of ANY token list `s` — balanced
+    or with an unterminated tail — on ANY stack ends: with a text or with a circular reference.
+    `_partial`: the statement for arbitrary finite tables is refuted below; `norm` is `id`
+    (no re-lexing of glued delimiter halves). -/
+theorem resolve_terminates_balanced_partial (tbl : Table) (hb : ∀ kv ∈ tbl, Balanced kv.2)
+    (s : Toks) (seen : List Toks) :
+    ∃ n, ∀ m, n ≤ m → resolve id m tbl s seen ≠ .outOfFuel := by
+  obtain ⟨r, hr⟩ := resolves_balanced tbl hb s seen
+  obtain ⟨n, hn⟩ := hr.fuel
+  exact ⟨n, fun m hm => by rw [hn m hm]; exact hr.ne⟩
+
+/-- the flat fragment as a corollary: table values without any prefix token (plain text values;
+    the input may nest placeholders and defaults arbitrarily) -/
+theorem resolve_terminates_flat_partial (tbl : Table) (hflat : ∀ kv ∈ tbl, Tok.pre ∉ kv.2)
+    (s : Toks) (seen : List Toks) :
+    ∃ n, ∀ m, n ≤ m → resolve id m tbl s seen ≠ .outOfFuel :=
+  resolve_terminates_balanced_partial tbl (fun kv h => Balanced.of_noPre (hflat kv h)) s seen
+
+/-- the placeholder texts a balanced table can ever make the resolver look at: those present in
+    the input and in the table values (`allPhs`) — the content of the finite-reach hypothesis -/
+theorem balanced_finite_reach (tbl : Table) (hb : ∀ kv ∈ tbl, Balanced kv.2) (s : Toks) :
+    FiniteReach id tbl (fun t => allPhs t ⊆ allPhs s ++ tbl.flatMap fun kv => allPhs kv.2)
+      (allPhs s ++ tbl.flatMap fun kv => allPhs kv.2) :=
+  finiteReach_balanced hb fun kv hkv _ hq =>
+    List.mem_append_right _ (List.mem_flatMap.mpr ⟨kv, hkv, hq⟩)
+
+/-- COUNTEREXAMPLE to general termination.  Table  o = "${",  a = "${o}a}}${:${a}w",
+    input "${:${a}${a}}" (default delimiters; the empty key is unknown): NO fuel suffices. -/
+theorem resolve_diverges_counterexample (fuel : Nat) :
+    resolveTop id fuel
+      [([.ch 'o'], [.pre]),
+       ([.ch 'a'], [.pre, .ch 'o', .suf, .ch 'a', .suf, .suf, .pre, .sep, .pre, .ch 'a', .suf, .ch 'w'])]
+      [.pre, .sep, .pre, .ch 'a', .suf, .pre, .ch 'a', .suf, .suf] = .outOfFuel :=
+  Div.diverges fuel
+
+/-- hence the general `resolve_terminates` is refuted -/
+theorem resolve_terminates_refuted :
+    ¬ ∀ (tbl : Table) (s : Toks), ∃ n, ∀ m, n ≤ m → resolve id m tbl s [] ≠ .outOfFuel := by
+  intro h
+  obtain ⟨n, hn⟩ := h Div.tblD (Div.D 0)
+  exact hn n (Nat.le_refl n) (Div.diverges n)
+
+/-- the token lists of the witness are what the lexer makes of the Go-side strings -/
+theorem nonvacuous_witness_lex :
+    let d : Delims := ⟨['$', '{'], ['}'], [':']⟩
+    lex d ['$', '{'] = [.pre] ∧
+    lex d ['$', '{', 'o', '}', 'a', '}', '}', '$', '{', ':', '$', '{', 'a', '}', 'w'] =
+      [.pre, .ch 'o', .suf, .ch 'a', .suf, .suf, .pre, .sep, .pre, .ch 'a', .suf, .ch 'w'] ∧
+    lex d ['$', '{', ':', '$', '{', 'a', '}', '$', '{', 'a', '}', '}'] =
+      [.pre, .sep, .pre, .ch 'a', .suf, .pre, .ch 'a', .suf, .suf] := by
+  decide
+
+/-- the witness is outside the balanced domain (both values), the cyclic tables used above are
+    inside it -/
+theorem nonvacuous_balanced_domain :
+    ¬ Balanced [Tok.pre] ∧
+    ¬ Balanced [.pre, .ch 'o', .suf, .ch 'a', .suf, .suf, .pre, .sep, .pre, .ch 'a', .suf, .ch 'w'] ∧
+    (∀ kv ∈ [(tA, [Tok.pre, .ch 'b', .suf]), ([.ch 'b'], phA)], Balanced kv.2) := by
+  refine ⟨by decide, by decide, ?_⟩
+  intro kv h
+  simp only [List.mem_cons, List.not_mem_nil, or_false] at h
+  rcases h with rfl | rfl <;> decide
+
 /-! ## Non-vacuity and witnesses (norm = id) -/
 
-def tA : Toks := [.ch 'a']
-def phA : Toks := [.pre, .ch 'a', .suf]
 
 /-- `${a}-${a}` with a = 1 resolves to `1-1` (the pinned tree reported a circular reference: D16). -/
 theorem nonvacuous_dup_ok :
@@ -218,27 +312,19 @@ theorem nonvacuous_dup_not_reaches (o : Toks) :
   cases h₁.unique h₂
 
 /-
-  STATED, NOT PROVED (DESIGN §6 C11) — covered by the harness only (exhaustive token strings
-  up to length 7/9 against 7 tables incl. self/mutual cycles; grammar templates against
-  random cyclic tables; step budget):
+  STATUS of the statements of DESIGN §6 C11 that were open:
 
-  * cycle_iff_onStack :
-      resolve n tbl s seen = .cycle o  ↔  Reaches tbl seen s o
-    where `Reaches` is the inductive relation "scanning s left to right, the expansion of some
-    placeholder (through key resolution, looked-up values and defaults) arrives at a placeholder
-    with text o while a placeholder with text o is still being expanded (o on the stack)".
-    The "only if" direction for the top-level stack is visible in `resolve_one` (cycle ph is
-    produced exactly by `seen.contains ph`, and `seen` is restored after each placeholder);
-    the repetition clause is proved (`resolve_dup_cycle_only_if`).
+  * cycle_iff_onStack — PROVED (`cycle_only_if_onStack` for every fuel, `cycle_if_onStack`,
+    `cycle_iff_onStack` with the fuel quantified, `cycle_is_true_cycle`).
 
-  * resolve_terminates : GrammarTable tbl → ∃ n, ∀ m ≥ n, resolve m tbl s [] ≠ .outOfFuel
-    fallback resolve_terminates_flat_partial (tables whose values have no nested-key
-    placeholders).  Neither is proved: defaults are re-scanned after their key part was
-    resolved, so the set of placeholder texts reachable from a finite table is not obviously
-    closed; no counter-example was found by the harness (lookup budget never hit).
+  * resolve_terminates (arbitrary finite tables) — REFUTED (`resolve_diverges_counterexample`,
+    `resolve_terminates_refuted`); proved for balanced tables (`resolve_terminates_balanced_partial`),
+    plain-text tables (`resolve_terminates_flat_partial`) and under the finite-reach hypothesis
+    (`resolve_terminates_of_finite_reach_partial`), all for every stack.  Not covered: `norm ≠ id`
+    (re-lexing of glued delimiter halves) in the balanced instance.
 
-  * resolve_refines_evalT : agreement with the AST evaluator on grammar-generated templates;
-    the harness compares with an independently written Go recursive-descent reference instead.
+  * resolve_refines_evalT : agreement with the AST evaluator on grammar-generated templates —
+    see below / the harness compares with an independently written Go recursive-descent reference.
 -/
 
 end Ytk.C11
